@@ -19,15 +19,15 @@ MPIRUN = ["mpirun", "--allow-run-as-root", "--oversubscribe", "--bind-to", "none
 MPIRUN_G = c13x.MPIRUN      # gate-level replays: ranks yield when idle (several shards side by side)
 
 
-def gen_cfg(nr, nd):
+def gen_cfg(nr, nd, renk):
     name = "gen_Synch_%d_%d_%d.cfg" % (nr, nd, os.getpid())
     with open(os.path.join(vlib.SPEC, name), "w") as f:
-        f.write("SPECIFICATION GenSpec\nCONSTANTS NR = %d ND = %d\nINVARIANT Emit\n" % (nr, nd))
+        f.write("SPECIFICATION GenSpec\nCONSTANTS NR = %d ND = %d RENK = %d\nINVARIANTS Emit LawRenum\n" % (nr, nd, renk))
     return name
 
 
 def sig(c, r):
-    return {"nr": c["nr"], "perm": c.get("perm", -1), "outcome": r.get("outcome", "mismatch"),
+    return {"nr": c["nr"], "perm": c.get("perm", -1), "nonmono": bool(c.get("nonmono", False)), "outcome": r.get("outcome", "mismatch"),
             "what": (r.get("why") or "").split(":")[1].strip().split(" ")[0] if ":" in (r.get("why") or "") else ""}
 
 
@@ -127,10 +127,11 @@ def run(chk):
     with cf.ThreadPoolExecutor(max_workers=2) as ex:
         futs = [(ex.submit(vlib.tlc, "Synch", c, workers=w, want_printed=False, timeout=3000, xmx="12g"), c) for c, w in mcs]
         # ---- G generation in parallel --------------------------------------------------------------
-        plan = [(1, 3), (2, 3), (3, 3), (4, 2)] + ([(4, 3), (5, 2), (6, 2)] if thorough else [])
+        # (ranks, global dofs, largest local renumbering kind of module Renum)
+        plan = [(1, 3, 2), (2, 3, 5), (3, 3, 5), (4, 2, 2), (4, 3, 1), (5, 2, 2), (6, 2, 2)] if thorough else [(1, 3, 2), (2, 3, 2), (3, 3, 2), (4, 2, 2)]
         if only_ext:
             plan = []
-        gens = [(ex.submit(vlib.tlc, "Gen_Synch", gen_cfg(nr, nd), workers=1, timeout=1500), nr, nd) for nr, nd in plan]
+        gens = [(ex.submit(vlib.tlc, "Gen_Synch", gen_cfg(nr, nd, rk), workers=1, timeout=1500), nr, nd) for nr, nd, rk in plan]
         for f, c in futs:
             r = f.result()
             chk.add_tlc(r, c)
@@ -140,6 +141,8 @@ def run(chk):
         for f, nr, nd in gens:
             r = f.result()
             chk.add_tlc(r, "Gen_Synch nr=%d nd=%d" % (nr, nd))
+            if r.violation:
+                chk.model_violation(r, "Gen_Synch laws (nr=%d nd=%d)" % (nr, nd))
             bynr.setdefault(nr, []).extend(r.printed)
             try:
                 os.remove(os.path.join(vlib.SPEC, "gen_Synch_%d_%d_%d.cfg" % (nr, nd, os.getpid())))
@@ -147,12 +150,22 @@ def run(chk):
                 pass
     # ---- G replay ----------------------------------------------------------------------------------
     total = 0
+    nonmono = 0
     for nr in sorted(bynr):
-        base = bynr[nr]
+        # the plan may generate a decomposition twice (quick and deeper renumbering kinds): keep one
+        base, seen = [], set()
+        for c in bynr[nr]:
+            k = json.dumps([c["dofs"]], sort_keys=True)
+            if k not in seen:
+                seen.add(k)
+                base.append(c)
         cases = []
         perms = [-1] if nr == 1 else ([-1, 0, 1, 2, 3, 4, 5] if nr >= 3 else [-1, 0, 1])
+        # renumbered patches (a non-monotone mirror): natural arrival order and one forced order (all orders in the thorough tier for <= 3 ranks)
+        perms_rn = perms if (thorough and nr <= 3) else ([-1] if nr == 1 else ([-1, 4] if nr >= 3 else [-1, 1]))
+        nonmono += sum(1 for c in base if c.get("nonmono"))
         for c in base:
-            for p in perms:
+            for p in (perms_rn if c.get("nonmono") else perms):
                 d = dict(c)
                 d["perm"] = p
                 cases.append(d)
@@ -164,6 +177,11 @@ def run(chk):
         if nr == 3:
             for c in cases[100:102]:
                 chk.sample({k: c[k] for k in ("nr", "dofs", "v0", "sync0", "count", "dot", "perm")})
+            rn = [c for c in cases if c.get("nonmono")]
+            if rn:
+                c = rn[len(rn) // 2]
+                chk.sample({k: c[k] for k in ("nr", "dofs", "ren", "mir", "v0", "sync0", "count", "dot", "perm")})
+    chk.extra["gate_cases_nonmonotone_mirror"] = nonmono
     if os.environ.get("C13_ONLY", "") != "ext":
         app_runs(chk, app)
     # ---- extension: matrices, blocked/tuple vectors, scalar tickets, muxer/splitter, filters (lib/c13x.py) -------------
